@@ -148,6 +148,8 @@ def optJ (toks : List String) : Option Nat :=
 def optDb (toks : List String) : Option Bool :=
   match kv? toks "db" with
   | some "1" => some true
+  | some "2" => some true     -- the query function panics with an error value
+  | some "3" => some true     -- … with a non-error value
   | some "0" => some false
   | some _ => none
   | none => some false
@@ -538,6 +540,13 @@ def runSection (r : Report) (sec : Section) : Report := Id.run do
         s := compact ms
       | _, _ => r := r.mismatch sec.idx l.idx "bad-op" (joinSp l.op)
       continue
+    if (l.obs.headD "").startsWith "PANIC" && l.op.head? ≠ some "ctake" then
+      -- the real code panicked under this operation although no user-supplied function of THIS operation did
+      -- (a query function that panics is caught by the harness and printed `panicked`): e.g. a key left unreadable
+      -- by an earlier panicking query (the flight's call never removed), a foreign object handed out by a barrier
+      r := { r with ops := r.ops + 1 }
+      r := r.violation sec.idx l.idx s!"released: the operation panicked inside the cache layer (no user-supplied function panicked in it; after a failed or panicking load the key must stay readable): {joinSp l.obs} op=[{joinSp l.op}]"
+      continue
     match parseOp l.op, parseVia l.op with
     | none, _ | _, none => r := r.mismatch sec.idx l.idx "bad-op" (joinSp l.op)
     | some (op, n), some via =>
@@ -552,6 +561,14 @@ def runSection (r : Report) (sec : Section) : Report := Id.run do
       let dbf := match op with | .take _ _ _ d => d | _ => false
       let multi := Spec.classesOf kinds via > 1
       let impl := joinSp l.obs
+      -- `db=2` / `db=3`: the query function panics; for the model and the monitor that is a failing database call
+      -- (nothing cached, no result), printed `panicked` instead of `dberr`
+      let pan := !conc && (l.op.contains "db=2" || l.op.contains "db=3")
+      if pan then r := r.addCover (if l.op.contains "db=2" then "query-panics-with-error-value" else "query-panics-with-non-error-value")
+      let panTxt (t : String) : String := if pan && t.startsWith "dberr " then "panicked " ++ (t.drop 6).toString else t
+      let unPan (toks : List String) : List String := match toks with
+        | "panicked" :: rest => if pan then "dberr" :: rest else toks
+        | _ => toks
       -- the model of the operation under the options of instance `i`
       let modelOf (i : Nat) : Cfg × (St × Out) × String :=
         let c := cfgs.getD i c0
@@ -562,7 +579,7 @@ def runSection (r : Report) (sec : Section) : Report := Id.run do
             -- classes every class loads at most once (1 ≤ q ≤ #classes): both printed as `ok`
             joinSp ([showRes res.2.res, (if (dbf || multi) && res.2.q = 1 then "q=ok" else s!"q={res.2.q}"), "cmds=-",
                      s!"inflight={res.2.q}", "distinct=1", "|"] ++ showDump res.1)
-          else joinSp (showOut (opKind op) res.1 res.2)
+          else panTxt (joinSp (showOut (opKind op) res.1 res.2))
         (c, res, txt)
       -- concurrent readers over instances with different options: the leader's options decide what is written
       let cands := via.map modelOf
@@ -599,7 +616,7 @@ def runSection (r : Report) (sec : Section) : Report := Id.run do
       | _ => pure ()
       if l.op.contains "w=1" && res.2.res = .notfound && res.2.q ≥ 1 then r := r.addCover "notfound-error-wrapped"
       if model ≠ impl then r := r.mismatch sec.idx l.idx model impl
-      match parseObs (if conc then concObs l.obs else l.obs) with
+      match parseObs (if conc then concObs l.obs else unPan l.obs) with
       | none => r := r.violation sec.idx l.idx s!"unreadable observation [{impl}] op=[{joinSp l.op}]"
       | some o =>
         let m := Spec.monStep c report mon op n o
